@@ -447,7 +447,25 @@ impl Future for Blocked {
 
 pub mod task {
     use super::*;
+    thread_local! {
+        /// harness switch: Some(n) = the process is "killed" (the call panics with
+        /// KILL_MARK) when an (n+1)-th engine call is about to start
+        static ENGINE_CALL_BUDGET: std::cell::Cell<Option<usize>> = const { std::cell::Cell::new(None) };
+    }
+    pub const KILL_MARK: &str = "tokio stand-in: killed before an engine call";
+    /// Let `n` more engine calls (block_in_place bodies) run, then kill; None = no limit.
+    pub fn kill_after_engine_calls(n: Option<usize>) {
+        ENGINE_CALL_BUDGET.with(|b| b.set(n));
+    }
     pub fn block_in_place<F: FnOnce() -> R, R>(f: F) -> R {
+        ENGINE_CALL_BUDGET.with(|b| {
+            if let Some(n) = b.get() {
+                if n == 0 {
+                    std::panic::panic_any(KILL_MARK);
+                }
+                b.set(Some(n - 1));
+            }
+        });
         f()
     }
     #[derive(Debug)]
